@@ -69,7 +69,7 @@ theorem coreType_of_core {n : Nat} {rels : List (List Int)} {c : Tab}
     (hdom : Tables.coreTypeBySize.map (·.1) = [1, 2, 3, 6, 8, 12, 24]) (hsp : Tables.coreTypeSpecialSize = 4) :
     c.size ∈ [1, 2, 3, 4, 6, 8, 12, 24] ∧ ∃ name, coreType n c = .ok name := by
   obtain ⟨t, hv, hk, hc⟩ := h
-  obtain ⟨c', hc', hv', lab, hsz, hnd, hlab⟩ := coreTab_valid hlet hv
+  obtain ⟨c', hc', hv', _, lab, hsz, hnd, hlab⟩ := coreTab_valid hlet hv
   rw [hc] at hc'
   cases hc'
   have hsize : c.size ∈ [1, 2, 3, 4, 6, 8, 12, 24] := by
